@@ -505,6 +505,7 @@ def features(prog):
         subs = [x for c in clauses for x in exprs_of_clause(c)] + list(final[1:])
         f["has_do"] = any(c[0] in ("do", "dobrk", "docnt", "dosetv") for c in clauses)
         f["do_setv_own"] = any(c[0] == "dosetv" for c in clauses)
+        f["do_setv_targets"] = sorted({c[1] for c in clauses if c[0] == "dosetv"})
         f["nested_setx"] = any(has(n[3], "setx") for x in subs for n in nested_forms(x))
         f["nested_setx_targets"] = sorted({t for x in subs for n in nested_forms(x) for t in setx_targets(n[3])})
         f["has_stmt_subform"] = any(has(x, "stm") for x in subs)
